@@ -222,12 +222,15 @@ def run(ck):
     # a platform at the surface / equator / prime meridian: axis (and data) values that are all exactly zero are still values
     zconc = dict(conc, z=[0] * 5, lat=[0] * 5, lon=[0] * 5, temp=[0] * 5)
     ztable = Table(5, streams=streams, concrete=zconc)
-    for fe, table, tname in [(f, tb, tn) for f in ('numpy', 'pandas') for tb, tn in ((table, ''), (ztable, '[all-zero axes]'))]:
-        run0 = run_frontend(r, fe, table, src)
+    # one observation only: still one row, with its axis values
+    one = Table(1, streams=streams, concrete={k: v[:1] for k, v in conc.items()})
+    src_one = make_config_source([dict(window=(None, None), tests={'temp': ['gross'], '9 lives-x': ['gross'], 'sal.t': ['valid']})])
+    for fe, table, tname in [(f, tb, tn) for f in ('numpy', 'pandas') for tb, tn in ((table, ''), (ztable, '[all-zero axes]'), (one, '[single row]'))]:
+        run0 = run_frontend(r, fe, table, src if table is not one else src_one)
         if run0.error is not None:
             ck.violate('C19.save', f'{fe}:stream-raises', f'{fe}: the stream raises {run0.error.exc}')
             continue
-        for c in contexts:
+        for c in (contexts if table is not one else [dict(window=(None, None), tests={'temp': ['gross'], '9 lives-x': ['gross'], 'sal.t': ['valid']})]):
             for sid, keys in c['tests'].items():
                 for k in keys:
                     COVERAGE.setdefault((id(table), sid, menu[k][1]), set()).update(table.rows_in(c['window']))
